@@ -279,3 +279,34 @@ def c14(ctx):
         ctx.violation("x25519:panic", "conversion panicked: %s" % r["panic"], r)
     elif r["bad"]:
         ctx.violation("x25519:asymmetric", "%d of %d key pairs give different shared secrets / inconsistent conversions" % (r["bad"], r["pairs"]), r)
+
+
+def c32(ctx):
+    ctx.assumptions = ["hash values are mapped order-preservingly from the small integers of SolicitMerge.tla to 32-byte strings"]
+    ctx.rule = ("all pairs of ascending lists (with duplicates) up to length 3 over 4 values (TLC: transcribed two-pointer merge = intersection, ascending) "
+                "replayed on FindMatchingHashes with inputs mutated afterwards; all ordered pairs of peer pairs for the session id; non-trivial = all")
+
+    def judge(c, o):
+        if o.get("panic"):
+            return ("merge:panic", "FindMatchingHashes panicked: %s" % o["panic"])
+        if o["r"] != c["r"]:
+            return ("merge:%s" % ("missing" if len(o["r"]) < len(c["r"]) else "extra-or-order"), "FindMatchingHashes(%s, %s) = %s, spec says %s" % (c["a"], c["b"], o["r"], c["r"]))
+        if not o["intact"]:
+            return ("merge:aliased", "matched hashes changed when the inputs were mutated afterwards")
+        return None
+
+    run_table(ctx, "SolicitMerge", "solicitmerge", judge)
+
+    def judge2(c, o):
+        if c["kind"] != "sess":
+            return None
+        if o.get("panic"):
+            return ("sess:panic", o["panic"])
+        if o["eq"] != c["same"]:
+            return ("sess:%s" % ("collision" if o["eq"] else "asymmetric"), "ComputeSessionID(%s,%s) vs (%s,%s): equal=%s, spec says %s" % (c["p1"], c["c1"], c["p2"], c["c2"], o["eq"], c["same"]))
+        if not o["sym"]:
+            return ("sess:asymmetric", "ComputeSessionID(a,b) != ComputeSessionID(b,a)")
+        return None
+
+    run_table(ctx, "SolicitHash", "solicithash", judge2, select=lambda cs: [c for c in cs if c["kind"] == "sess"])
+    ctx.exhaustive = True
